@@ -10,7 +10,7 @@ import sys
 import time as _time
 
 from vf import fakeplyvel
-from vf.common import SHM, Broken
+from vf.common import SHM, Broken, run_sync
 from vf.vloop import VLoop
 
 _REAL_OPEN = builtins.open
@@ -520,6 +520,13 @@ class World:
                 self.bp.force_flush_arg = directive
 
     def start_sync(self):
+        # Controller.serve awaits daemon.height() before it spawns the block processor, so the
+        # daemon's cached height is never unknown while fetch_and_process_blocks runs
+        saved, self.daemon.immediate = self.daemon.immediate, True
+        try:
+            run_sync(self.daemon.height())
+        finally:
+            self.daemon.immediate = saved
         self.bp_task = self.loop.create_task(
             self.bp.fetch_and_process_blocks(self.caught_up_event, self.shutdown_event))
         return self.bp_task
